@@ -47,6 +47,7 @@ functions mirroring go1.23 / rare, and `match_eq_spec`, `match_sound`, `match_ba
 * `reader_exec_source`, `reader_body_matches_source`, `stdin_body_matches_source` – the reader goroutines of `OpenFilesToChan`
   and `OpenReaderToChan` EXECUTED from their regenerated control trees and interpreted on the observables are `runFile` /
   `runStdin` for every oracle (errors counted, log lines, delivered lines, one slot release / `wg.Done()` / channel close).
+* `run_errors_from_source` – the read-error count of the whole run = the `incErrors()` calls those bodies execute, summed over the plan.
 * `code_shape` – the regenerated control skeletons equal the ones the model mirrors; `expand_matches_source`,
   `expand_tree_matches_source`, `walkRoot_matches_source`, `isDir_matches_source`, `open_matches_source` – the bodies of
   `GlobExpand`, `walkRoot`, `isDir`, `openFileToReader` regenerated as FUNCTIONS equal the hand model for all inputs.
@@ -1586,5 +1587,35 @@ example :
     let e := interpStdin ["do:s.incErrors()"] [60] [97, 10] true (exec (fun _ => false) early)
     e.errs = 1 ∧ e.errsAtClose = some 0 ∧ (runStdin [97, 10] true).errs = 1 := by
   decide
+
+/-! ## The read-error count of the whole run, from the source text of the readers -/
+
+/-- what the source text of the two reader goroutines counts for one planned input -/
+def srcErrs (cfg : Config) (files : Path → FileOracle) (stdin : Bytes) (stdinFails : Bool) : Source → Nat
+  | .stdin => (interpStdin (onErrorBody Gen.C01.scanner_syncReaderToBatcherWithTimeFlush) stdinName stdin stdinFails
+      (exec (fun _ => false) stdinBody)).errs
+  | .file p => (interpReader (onErrorBody Gen.C01.scanner_syncReaderToBatcher) cfg.gunzip p (files p)
+      (exec (readerEnv (files p)) readerBody)).errs
+
+/-- **`ReadErrors()` of a run = the `incErrors()` calls the regenerated reader bodies execute**, summed over the planned
+    inputs (standard input or the expanded file names, once per mention): for every command line that passes the usage
+    checks, every file-system / file oracle, `-z`, failing standard input.  With `run_exit_status` this ties the exit status 2
+    of the property to the statements of `OpenFilesToChan` / `OpenReaderToChan` / the `OnError` callbacks in /repo. -/
+theorem run_errors_from_source (cfg : Config) (args : List Path) (fs : FsOracle) (files : Path → FileOracle)
+    (stdin : Bytes) (stdinFails : Bool) (h : usageCheck cfg.batch cfg.readers cfg.gunzip args = none) :
+    (run cfg args fs files stdin stdinFails).readErrors
+      = ((plan cfg.recursive args fs).map (srcErrs cfg files stdin stdinFails)).sum := by
+  unfold run
+  rw [h]
+  simp only [List.map_map]
+  congr 1
+  apply List.map_congr_left
+  intro s _
+  cases s with
+  | stdin => exact (stdin_body_matches_source stdin stdinFails).2.2.1
+  | file p => exact (reader_body_matches_source cfg.gunzip p (files p)).2.1
+
+/-- the hypothesis is the ordinary case (`rare filter a`, `rare filter -z --readers 3 a b`) -/
+example : usageCheck 1000 1 false [[97]] = none ∧ usageCheck 1 3 true [[97], [98]] = none := by decide
 
 end Rare.C06
